@@ -33,7 +33,7 @@ from typing import TYPE_CHECKING
 
 import yaml
 
-from src.core.constants import HEADER_SCAN_LINES
+from src.core.constants import HEADER_SCAN_LINES, split_lines
 from src.linter_config.directive_markers import (
     check_general_ignore,
     has_ignore_directive_marker,
@@ -171,7 +171,7 @@ def _read_file_first_lines(file_path: Path) -> list[str]:
         return []
     try:
         content = file_path.read_text(encoding="utf-8")
-        return content.splitlines()[:HEADER_SCAN_LINES]
+        return split_lines(content)[:HEADER_SCAN_LINES]
     except (UnicodeDecodeError, OSError) as e:
         logger.debug("Failed to read file %s: %s", file_path, e)
         return []
@@ -215,13 +215,13 @@ def _check_specific_rule_in_line(code: str, rule_id: str) -> bool:
 
 def _has_file_ignore_in_content(file_content: str, rule_id: str | None) -> bool:
     """Check if file content has ignore-file directive."""
-    lines = file_content.splitlines()[:HEADER_SCAN_LINES]
+    lines = split_lines(file_content)[:HEADER_SCAN_LINES]
     return any(_check_line_for_ignore(line, rule_id) for line in lines)
 
 
 def _is_ignored_in_content(file_content: str, violation: "Violation") -> bool:
     """Check content-based ignores (block, line, method level)."""
-    lines = file_content.splitlines()
+    lines = split_lines(file_content)
     if _check_block_ignore(lines, violation):
         return True
     if _check_prev_line_ignore(lines, violation):
